@@ -1,4 +1,4 @@
-// C07 correspondence harness (uses harness/ceq_tree.h, CEQ_TREE_VERSION 4).
+// C07 correspondence harness (uses harness/ceq_tree.h, CEQ_TREE_VERSION 5).
 // For every case: random tree + ONE constraint of one built-in type on random bodies/mobilities, random VIOLATED state
 // (q,u arbitrary), arbitrary udot.
 //
@@ -34,13 +34,13 @@ static void putKin(vh::Line& L, const Transform& X, const SpatialVec& V, const S
 static double relErr(const Vector& a, const Vector& b, double floorScale = 1.0) {
     double sc = std::max(floorScale, std::max(maxAbs(a), maxAbs(b)));
     if (a.size() != b.size()) return NAN;
-    double e = 0; for (int i = 0; i < a.size(); ++i) { double d = std::abs(a[i] - b[i]); if (!(d <= e)) e = d; }   // NaN propagates
+    double e = 0; for (int i = 0; i < a.size(); ++i) { double d = std::abs(a[i] - b[i]); if (std::isnan(d)) return NAN; if (d > e) e = d; }   // NaN propagates
     return e / sc;
 }
 static double relErrM(const Matrix& a, const Matrix& b) {
     if (a.nrow() != b.nrow() || a.ncol() != b.ncol()) return NAN;
     double sc = 1, e = 0;
-    for (int i = 0; i < a.nrow(); ++i) for (int j = 0; j < a.ncol(); ++j) { sc = std::max(sc, std::max(std::abs(a(i, j)), std::abs(b(i, j)))); double d = std::abs(a(i, j) - b(i, j)); if (!(d <= e)) e = d; }
+    for (int i = 0; i < a.nrow(); ++i) for (int j = 0; j < a.ncol(); ++j) { sc = std::max(sc, std::max(std::abs(a(i, j)), std::abs(b(i, j)))); double d = std::abs(a(i, j) - b(i, j)); if (std::isnan(d)) return NAN; if (d > e) e = d; }
     return e / sc;
 }
 
@@ -302,11 +302,10 @@ static void oneCase(vh::Rng& g, long caseNo, int type, bool wantModel, bool want
         try { M.system.project(M.state, 1e-11); } catch (const std::exception&) { ok = false; }
         if (ok) {
             M.system.realize(M.state, Stage::Velocity);
-            double en = 0;
-            if (mp) en = std::max(en, maxAbs(ci.c.getPositionErrorsAsVector(M.state)));
-            en = std::max(en, maxAbs(ci.c.getVelocityErrorsAsVector(M.state)));
-            en = std::max(en, std::max(maxAbs(M.state.getQ()), maxAbs(M.state.getU())) > 1e3 ? 1.0 : 0.0);
-            if (en < 1e-9) implChecks(M, ci, g, caseNo, udot, lambda, "onManifold");
+            const double ep = mp ? maxAbs(ci.c.getPositionErrorsAsVector(M.state)) : 0.0;
+            const double ev = maxAbs(ci.c.getVelocityErrorsAsVector(M.state));
+            const double bq = maxAbs(M.state.getQ()), bu = maxAbs(M.state.getU());   // NaN fails every comparison below
+            if (ep < 1e-9 && ev < 1e-9 && bq < 1e3 && bu < 1e3) implChecks(M, ci, g, caseNo, udot, lambda, "onManifold");
         }
     }
 }
